@@ -22,7 +22,7 @@ COMPONENTS = {"real": ["geonet.Router", "geonet.LocationTable", "geonet header c
 ASSUMPTIONS = ["single-hop topology: every station is in radio range of every other (relaying is C06)",
                "requests with the store-carry-forward bit set are only checked for safety (buffering is unimplemented in the stack)",
                "ordering is demanded per (sender, receiver) among broadcast-type requests and among unicast requests separately"]
-EXPECTED_PROBES = ["delivered:shb", "delivered:gbc", "delivered:gac", "delivered:guc", "guc-via-ls", "guc-while-ls-pending",
+EXPECTED_PROBES = ["secure-run-request", "delivered:shb", "delivered:gbc", "delivered:gac", "delivered:guc", "guc-via-ls", "guc-while-ls-pending",
                    "area-receiver-outside", "hemi-neg"]
 
 TYPES = ["shb", "gbc", "gac", "guc"]
@@ -108,10 +108,27 @@ def gen_plan(run_seed: int, tier: str) -> dict:
                 ops.append(o2)
             continue
         ops.append(op)
+    rs = random.Random(run_seed ^ 0x5EC5EC)
+    secure = rs.random() < 0.12
+    if secure:
+        # MIB variant "security on with a common trust root": every station holds a ticket and knows the others' tickets
+        for i, s_ in enumerate(stations):
+            s_["secure"], s_["ticket"], s_["preload"] = True, i, [j for j in range(n) if j != i]
+            s_["mib"]["itsGnSecurity"] = "ENABLED"
+        for o in ops:
+            if o["op"] == "req":
+                if o["type"] == "shb":
+                    o["profile"], o["its_aid"] = rs.choice([("COOPERATIVE_AWARENESS_MESSAGE", 36), ("VRU_AWARENESS_MESSAGE", 638)])
+                elif o["type"] == "gbc":
+                    o["profile"], o["its_aid"] = "DECENTRALIZED_ENVIRONMENTAL_NOTIFICATION_MESSAGE", 37
     ls_wait = (mib.get("itsGnLocationServiceRetransmitTimer", 1000) * (mib.get("itsGnLocationServiceMaxRetrans", 10) + 2)) * 1000
     cfg = {"t0_us": 1_767_225_600_000_000 + r.randrange(0, 86_400_000) * 1000, "net_seed": r.getrandbits(32),
            "latency_us": [100, 2000], "fifo": True, "topology": "mesh", "run_limit_us": t + ls_wait + 2_000_000,
            "fault_class": "lossy" if lossy else "none", "hemi": hemi}
+    if secure:
+        cfg["secure"] = True
+        cfg["pki_seed"] = rs.randrange(3)
+        cfg["psid_sets"] = [[36, 37, 638]] * n
     if lossy:
         cfg["rates"] = {"drop": r.choice([0.01, 0.05, 0.2]), "dup": r.choice([0, 0.05, 0.2]), "delay": r.choice([0, 0.05, 0.2])}
         cfg["fifo"] = False
@@ -165,11 +182,14 @@ class C01Sim(NetSim):
 
 
 def make_sim(plan: dict):
+    if plan["config"].get("secure"):
+        from ..secnet import SecNetSim
+        return SecNetSim(plan)
     return C01Sim(plan)
 
 
 def execute(plan: dict) -> dict:
-    sim = C01Sim(plan)
+    sim = make_sim(plan)
     sim.run()
     judge(sim)
     return finish(sim, trace_of(sim))
@@ -205,7 +225,10 @@ def judge(sim: C01Sim) -> None:
         if hemi != "NE":
             sim.probe("hemi-neg")
         key_base = f"{typ}/{hemi}"
-        if typ in ("gbc", "gac") and op["area"]["shape"] != 0 and op["area"]["angle"] % 180 != 0:
+        if plan["config"].get("secure"):
+            sim.probe("secure-run-request")
+            key_base = f"{typ}/secure"
+        if typ in ("gbc", "gac") and op["area"]["shape"] != 0 and op["area"]["angle"] % 180 != 0 and not plan["config"].get("secure"):
             key_base += "/rotated"
         o["key_base"] = key_base
         o["cls"] = {}
@@ -237,7 +260,9 @@ def judge(sim: C01Sim) -> None:
                 ls_state = "ls-pending"
                 sim.probe("guc-while-ls-pending")
             o["ls_state"] = ls_state
-            o["key_base"] = key_base = key_base + "/" + ls_state
+            if not plan["config"].get("secure"):
+                key_base = key_base + "/" + ls_state
+            o["key_base"] = key_base
         for rcv in sim.stations:
             if rcv.role != "stack":
                 continue
